@@ -6,7 +6,7 @@ CONSTANTS
   MaxDim = 3
   MaxBlocked = 0
   AssignInf = FALSE
-  FlagDims = {2, 3}
+  FlagDims = {0, 2, 3}
   Mode = "flag"
 VIEW View
 INVARIANT TypeOK
